@@ -85,8 +85,11 @@ class SimulatesSamples(work.Sampler, metaclass=abc.ABCMeta):
         for param_resolver in study.to_resolvers(params):
             records = {}
             if repetitions == 0:
+                # Empty records of shape (0, instances of the key, measured qubits).
                 for _, op, _ in program.findall_operations_with_gate_type(ops.MeasurementGate):
-                    records[protocols.measurement_key_name(op)] = np.empty([0, 1, 1])
+                    key = protocols.measurement_key_name(op)
+                    instances = records[key].shape[1] + 1 if key in records else 1
+                    records[key] = np.empty([0, instances, len(op.qubits)], dtype=np.uint8)
             else:
                 records = self._run(
                     circuit=program, param_resolver=param_resolver, repetitions=repetitions
